@@ -101,6 +101,15 @@ func visible(s string) bool {
 	return ok
 }
 
+// plainItem: non-empty visible text without the delimiters of header styles (the core domain of C01)
+func plainItem(s string) bool {
+	ok := len(s) > 0
+	for i := 0; i < len(s); i++ {
+		ok = zz.And(ok, zz.And(zz.And(s[i] > 0x20, s[i] < 0x7f), zz.And(s[i] != ',', s[i] != '=')))
+	}
+	return ok
+}
+
 // HGetO: part 0 path values (order!), 1 zero-valued defaults (mask l1 says which are supplied),
 // 2 typed header / enum, 3 response variants, 4 the integer path-item-level parameter.
 func HGetO(part, l1, l2 int) {
@@ -122,6 +131,21 @@ func HGetO(part, l1, l2 int) {
 		ms := zz.Int64()
 		zz.Assume(zz.And(ms >= 10000000000000, ms <= 99999999999999))
 		p.Tm = NewOptUnixMilli(time.UnixMilli(ms))
+	case 6: // structured response headers on the 204: exploded object (l1&1), non-exploded object (l1&2), array (l1&4)
+		o := &GetONoContent{}
+		if l1&1 != 0 {
+			o.XO = NewOptGetONoContentXO(GetONoContentXO{Limit: NewOptInt(int(zz.Int8())), Window: NewOptString(zz.String(l2))})
+			zz.Assume(plainItem(o.XO.Value.Window.Value))
+		}
+		if l1&2 != 0 {
+			o.XP = NewOptGetONoContentXP(GetONoContentXP{A: NewOptInt(int(zz.Int8())), B: NewOptString(zz.String(l2))})
+			zz.Assume(plainItem(o.XP.Value.B.Value))
+		}
+		if l1&4 != 0 {
+			o.XA = []string{zz.String(l2), zz.String(1)}
+			zz.Assume(zz.And(plainItem(o.XA[0]), plainItem(o.XA[1])))
+		}
+		h.res = o
 	case 1:
 		if l1&1 != 0 {
 			p.Zi = NewOptInt(int(zz.Int8()))
@@ -219,6 +243,13 @@ func HGetO(part, l1, l2 int) {
 		zz.Assert(ok, "the caller receives the 204 variant the handler returned")
 		if ok {
 			zz.Assert(eqOptString2(got.XN, want.XN), "the caller receives the header of the exact-code no-content response")
+			zz.Assert(got.XO.Set == want.XO.Set && got.XO.Value.Limit == want.XO.Value.Limit && eqOptString2(got.XO.Value.Window, want.XO.Value.Window), "the caller receives the exploded object response header the handler returned")
+			zz.Assert(got.XP.Set == want.XP.Set && got.XP.Value.A == want.XP.Value.A && eqOptString2(got.XP.Value.B, want.XP.Value.B), "the caller receives the non-exploded object response header the handler returned")
+			okA := len(got.XA) == len(want.XA)
+			for i := 0; okA && i < len(want.XA); i++ {
+				okA = zz.EqString(got.XA[i], want.XA[i])
+			}
+			zz.Assert(okA, "the caller receives the array response header the handler returned")
 		}
 	case *GetO4XX:
 		got, ok := res.(*GetO4XX)
